@@ -142,6 +142,52 @@ def run(res, tier, build_ok):
                                   {"transport": kind, "blocksize": bs, "capacity": cap, "history": hist, "lba": lba, "target": r[:80], "written": hx(disk[lba])[:80]})
                     break
             dev.close()
+        # boundary transfer lengths (the random histories above keep tl small): block size 1, every
+        # write width x read width, lengths around the 8/16-bit edges of the TRANSFER LENGTH fields
+        small = [(255, 10, (10, 12, 16)), (256, 12, (10, 12, 16)), (257, 16, (10, 12, 16))]
+        if scale == 1:      # each read of >= 64 Ki blocks costs the (list-based) Lean target ~5 s
+            plan = {"sgio": small + [(65535, 10, (10,)), (65536, 12, (12, 16))],
+                    "iscsi": small + [(65535, 16, (10,)), (65537, 16, (12, 16))]}
+        else:
+            full = [(tl, ww, (10, 12, 16)) for tl in (255, 256, 257, 65535, 65536, 65537) for ww in (10, 12, 16)]
+            plan = {"sgio": full, "iscsi": full}
+        for kind in ("sgio", "iscsi"):
+            bs, cap = 1, 1 << 34
+            if kind == "sgio":
+                vos.mknod("/dev/sgt")
+                dev = SCSIDevice("/dev/sgt", readwrite=True)
+            else:
+                dev = ISCSIDevice("iscsi://h/iqn.t/0", "iqn.i")
+            fac = None
+            for tl, ww, rws in plan[kind]:
+                if ww == 10 and tl > 0xFFFF:
+                    continue
+                assert tgt.ask("tgtnew %d %d %d" % (bs, cap, 0)) == "ok"     # fresh (small) block map per case
+                if fac is None:
+                    fac = SCSI(dev, bs)
+                lba = rng.randint(0, 1 << 20)
+                data = (bytearray(rng.getrandbits(8) for _ in range(64)) * (tl // 64 + 1))[:tl]
+                hist = [("write%d" % ww, lba, tl)]
+                bad = None
+                try:
+                    getattr(fac, "write%d" % ww)(lba, tl, data)
+                    for rw in rws:
+                        if rw == 10 and tl > 0xFFFF:
+                            continue
+                        hist.append(("read%d" % rw, lba, tl))
+                        cmd = getattr(fac, "read%d" % rw)(lba, tl)
+                        if bytes(cmd.datain) != bytes(data):
+                            bad = "read%d(lba=%d, tl=%d) after write%d returned %d bytes, %s" % (
+                                rw, lba, tl, ww, len(cmd.datain),
+                                "not the %d bytes written" % tl if len(cmd.datain) != tl else "content differs from what was written")
+                            break
+                except Exception as e:
+                    bad = "%s raised %s: %s" % (hist[-1][0], type(e).__name__, str(e)[:80])
+                res.case((kind, "edge", tl, ww), None)
+                res.count("boundary transfer length histories")
+                if bad:
+                    res.violation("c12 %s boundary" % hist[-1][0], bad, {"transport": kind, "blocksize": bs, "capacity": cap, "history": hist})
+            dev.close()
     finally:
         tgt.close()
         sgio.BACKEND = None
